@@ -588,7 +588,22 @@ fn scenarios(tier: &str) -> Vec<C04> {
         start_seq: 0,
         cfg: OCfg { max_controls: Some(1), ..C04::cfg() },
     });
+    // a limit equal to the number of controls in the request: SELECT and OPERATE both execute all
+    v.push(C04 {
+        name: "limit2-reducedB-d3-seq0".to_string(),
+        alphabet: reduced_alphabet(Obj::B),
+        depth: 3,
+        start_seq: 0,
+        cfg: OCfg { max_controls: Some(2), ..C04::cfg() },
+    });
     if tier == "thorough" {
+        v.push(C04 {
+            name: "limit1-reducedA-d4-seq0".to_string(),
+            alphabet: reduced_alphabet(Obj::A),
+            depth: 4,
+            start_seq: 0,
+            cfg: OCfg { max_controls: Some(1), ..C04::cfg() },
+        });
         v.push(mk("reducedA-d5-seq0", reduced_alphabet(Obj::A), 5, 0));
         v.push(mk("reducedB-d5-seq14", reduced_alphabet(Obj::B), 5, 14));
         v.push(mk("reducedF-d5-seq0", reduced_alphabet(Obj::F), 5, 0));
